@@ -240,6 +240,107 @@ fn no_runtime_grid(ctx: &mut Ctx) {
     }
 }
 
+/// Two runtimes. (a) A layer that has served a request on one runtime serves the next one on
+/// another after the first runtime is gone (a stack in a `static` used by several tests, a
+/// bootstrap runtime followed by a serving runtime). (b) A call future made under one runtime
+/// is driven by another one (the first stays alive but idle). In both cases the outcome and the
+/// number of inner calls must be what the same request gives on a single runtime - for the
+/// variants for which that is so on the pinned tree (`works`): a layer must not start to cache
+/// or capture "its" runtime.
+fn two_runtime_grid(ctx: &mut Ctx) {
+    fn sig(s: &Seen) -> String {
+        match s {
+            Seen::Ok(_) => "ok".to_string(),
+            Seen::Err(EOut::PassThrough(_)) => "pass_through_err".to_string(),
+            other => format!("{other:?}"),
+        }
+    }
+    /// one case on a thread of its own: ((reference outcome, inner calls), (outcome, inner calls))
+    fn case(m: Mw, mode: Mode, second_request: bool) -> ((String, usize), (String, usize)) {
+        trv_core::quiet_panics();
+        let plog: Arc<Mutex<ProbeLog>> = Default::default();
+        let wa = World::new(0, 10, InnerMode::Script, 1);
+        // (the inner service answers at once: no timer of its own is tied to a runtime)
+        wa.inner.lock().unwrap().default_plan = Plan::now(Out::Ok);
+        let inner_state = wa.inner.clone();
+        let mut svc = build_on_kind(m, mode, Kind::Strict, GatedInner::new(wa.inner.clone()), &plog, None);
+        let reference = sig(&drive(&wa, &mut svc, Req::new(80, 1)));
+        let ref_calls = inner_state.lock().unwrap().calls.len();
+        if second_request {
+            drop(wa);
+            let wb = World::new(0, 10, InnerMode::Script, 1);
+            let s = sig(&drive(&wb, &mut svc, Req::new(81, 1)));
+            let n = inner_state.lock().unwrap().calls.len() - ref_calls;
+            ((reference, ref_calls), (s, n))
+        } else {
+            let made = catch_unwind(AssertUnwindSafe(|| {
+                let ready = wa.block_on(futures::future::poll_fn(|cx| svc.poll_ready(cx)));
+                ready.map(|_| svc.call(Req::new(82, 1)))
+            }));
+            let got = match made {
+                Err(_) => ("panicked in call()".to_string(), 0),
+                Ok(Err(_)) => ("readiness error".to_string(), 0),
+                Ok(Ok(fut)) => {
+                    let wb = World::new(0, 10, InnerMode::Script, 1);
+                    let r = catch_unwind(AssertUnwindSafe(|| {
+                        wb.block_on(async {
+                            let r = match tokio::time::timeout(std::time::Duration::from_secs(86_400), fut).await {
+                                Ok(Ok(_)) => "ok".to_string(),
+                                Ok(Err(EOut::PassThrough(_))) => "pass_through_err".to_string(),
+                                Ok(Err(e)) => format!("{e:?}"),
+                                Err(_) => "Hung".to_string(),
+                            };
+                            for _ in 0..6 {
+                                tokio::task::yield_now().await;
+                            }
+                            r
+                        })
+                    }));
+                    let s = r.unwrap_or_else(|_| "panicked".to_string());
+                    drop(wb);
+                    (s, inner_state.lock().unwrap().calls.len() - ref_calls)
+                }
+            };
+            ((reference, ref_calls), got)
+        }
+    }
+    for &m in ALL.iter() {
+        let modes: Vec<Mode> = if m.can_multiply() { vec![Mode::Plain, Mode::MultiplyAlt] } else { vec![Mode::Plain] };
+        for mode in modes {
+            for (second_request, shape) in [(true, "second request after the first runtime is gone"), (false, "future made under one runtime, driven by another")] {
+                let (tx, rx) = std::sync::mpsc::channel();
+                std::thread::spawn(move || {
+                    let r = catch_unwind(AssertUnwindSafe(|| case(m, mode, second_request)));
+                    let _ = tx.send(r.unwrap_or_else(|_| (("harness panicked".to_string(), 0), ("harness panicked".to_string(), 0))));
+                });
+                // (a case that blocks for good - a task parked on a runtime nobody drives - is an
+                // answer too; its thread is left behind and goes away with the process)
+                let ((reference, ref_calls), (got, calls)) = rx.recv_timeout(std::time::Duration::from_secs(20)).unwrap_or_else(|_| (("?".to_string(), 0), ("blocked for good".to_string(), 0)));
+                ctx.rep.evaluations += 1;
+                let config = format!("{} {:?} two runtimes: {}", m.name(), mode, shape);
+                let same = got == reference && calls == ref_calls;
+                if std::env::var("VERIF_DEBUG_NORT").is_ok() {
+                    eprintln!("{config}: reference ({reference}, {ref_calls}) got ({got}, {calls}) same={same}");
+                }
+                let exempt = TWO_RUNTIME_EXEMPT.iter().any(|(n, md, sh)| *n == m.name() && *md == format!("{mode:?}") && shape.starts_with(sh));
+                if !same && !exempt {
+                    ctx.viol("runtime_captured", &format!("{}::two_runtimes", m.name()), config.clone(), json!({"shape": shape}), format!("on one runtime: ({reference}, {ref_calls} inner calls); with two: ({got}, {calls} inner calls)"));
+                }
+                ctx.rep.witness("request_served_across_two_runtimes", 1);
+                ctx.rep.distinct.insert(config);
+            }
+        }
+    }
+}
+
+/// (variant, mode, shape prefix) for which the pinned tree itself depends on the runtime that
+/// made the call or served the first request
+const TWO_RUNTIME_EXEMPT: [(&str, &str, &str); 2] = [
+    // the executor layer is configured with the handle of the runtime it offloads to
+    ("executor", "Plain", "second request"),
+    ("executor", "Plain", "future made"),
+];
+
 pub struct Ctx<'a> {
     pub rep: &'a mut Report,
     pub reported: std::collections::BTreeSet<String>,
@@ -536,6 +637,7 @@ fn main() {
     listener_grid(&mut ctx);
     late_poll_grid(&mut ctx);
     no_runtime_grid(&mut ctx);
+    two_runtime_grid(&mut ctx);
     trigger::run(&mut ctx);
     stacks::run(&mut ctx);
     if tier == Tier::Thorough {
